@@ -141,4 +141,29 @@ example :
       (msGenScript [] [] [] [.leaf (.int 1), .leaf (.int 1)] [.leaf (.int 4), .leaf (.int 55)] p etbl).cost = 6 := by
   decide +kernel
 
+/-! ### [audit] counter-example: "for every oracle answer" needs FULLNESS of the solver's matching, also WITHOUT duplicates
+
+  `MultiSetNode([1, 2])` → `MultiSetNode([4, 5])` (no duplicates; all four edges cost 1, so the matcher caches [2, 2]) with
+  an EMPTY (non-full, but sanitised-valid) solver answer: the faithful model reports 2 + 4·2 = 10, the sub-edits sum to 8.
+  The real code behaves the same (checked by patching `min_weight_bipartite_matching` to return `{}` on
+  `{"a":1,"b":1}` → `{"c":1,"d":1}`, auto_match_keys=False: `MultiSetEdit.bounds()` = 22, Σ sub-edits = 20).
+  The L2 model `GtModel.msScript` (DictNodes; what `C03.reported_eq_sum` is about) DEFINES the cost of an `ms` node as
+  `sumCosts subs` (`mkCompound`), so there the equation is `rfl` for every answer — it does not mirror
+  `MultiSetEdit.bounds()` = `matcher.bounds()` + ….  The tie for `ms` costs is the correspondence stream only. -/
+
+-- [audit] counter-example (faithful model, no duplicates, non-full answer)
+example :
+    let orc : Oracle := [{ f := [[0], [1]], t := [[0], [1]], pairs := [] }]
+    let p : Parts := { fcls := [0, 1], tcls := [2, 3], chF := [0, 1], chT := [2, 3], matE := [], remE := [0, 1], insE := [2, 3] }
+    let s := msGenScript orc [] [] [.leaf (.int 1), .leaf (.int 2)] [.leaf (.int 4), .leaf (.int 5)] p (fun _ _ => mkMatch 1)
+    s.cost = 10 ∧ sumCosts s.subs = 8 := by
+  decide +kernel
+
+-- [audit] … while the L2 `msScript` on the analogous mappings reports the sum by definition (`rfl`), same empty answer
+example :
+    let orc : Oracle := [{ f := [[0], [1]], t := [[0], [1]], pairs := [] }]
+    let fkv : List (Str × Tree) := [([97], .leaf (.int 1)), ([98], .leaf (.int 1))]
+    let tkv : List (Str × Tree) := [([99], .leaf (.int 1)), ([100], .leaf (.int 1))]
+    (msScript false orc [] [] fkv tkv []).cost = sumCosts (msScript false orc [] [] fkv tkv []).subs := rfl
+
 end GtModel.C03
